@@ -2823,6 +2823,8 @@ def allclose_units(actual, desired, rtol=1e-7, atol=0, **kwargs):
     act = unyt_array(actual)
     des = unyt_array(desired)
 
+    # a bare atol is documented to be in the units of ``desired``
+    des_units = des.units
     try:
         des = des.in_units(act.units)
     except (UnitOperationError, UnitConversionError):
@@ -2833,7 +2835,11 @@ def allclose_units(actual, desired, rtol=1e-7, atol=0, **kwargs):
         raise RuntimeError(f"Units of rtol ({rt.units}) are not dimensionless")
 
     if not isinstance(atol, unyt_array):
-        at = unyt_quantity(atol, des.units)
+        # a tolerance is a difference: only the scale of desired's unit
+        # matters, not a zero-point offset
+        at = unyt_quantity(
+            atol * (des_units.base_value / act.units.base_value), act.units
+        )
     else:
         at = atol
 
